@@ -238,14 +238,14 @@ def errBadLang : Nat := 3
 
 /-- a successful `parse_media_file` of content `c` for media file `mfid` -/
 def applyIndex (s : St) (mfid : Nat) (c : Content) : St :=
-  let (keys', links') := linkKids s.keys (s.links.filter (·.1 != mfid)) mfid c.kids
+  let r := linkKids s.keys (s.links.filter (·.1 != mfid)) mfid c.kids
   { s with
     files := s.files.map (fun f =>
       if f.pk == mfid then
         { f with rep := some { track := c.track, ctype := c.ctype, enc := c.enc },
                  errs := if c.badlang then [errBadLang] else [] }
       else f),
-    keys := keys', links := links' }
+    keys := r.1, links := r.2 }
 
 /-! ### file names (`utils/files.py`, `pathlib`) -/
 
@@ -449,8 +449,8 @@ def editMedia (s : St) (spk mfid track : Nat) : St × Res :=
         | none => (s, .rej)
         | some (st, b, d) =>
           if !d.content.idx then (s, .rej) else
-          let (stem, suffix) := splitExt b.filename
-          let nn := newName s.disk st.dir stem suffix (s.disk.length + 1) 0
+          let ext := splitExt b.filename
+          let nn := newName s.disk st.dir ext.1 ext.2 (s.disk.length + 1) 0
           let c' : Content := { d.content with track := track }
           let disk' := writeDisk s.disk st.dir nn c'
           if s.blobs.any (·.filename == nn) then ({ s with disk := disk' }, .rej)
